@@ -2643,6 +2643,9 @@ class IgnContrib(Output):
             # Compute frequencies
             for i in range(len(edges) - 1):
                 q = (p >= edges[i]) & (p < edges[i + 1])
+                if i == len(edges) - 2:
+                    # The last bin includes its upper edge (a probability of exactly 1)
+                    q = q | (p == edges[i + 1])
                 I = np.where(q)[0]
                 if len(I) > 0:
                     n[f, i] = len(obs[I])
